@@ -206,6 +206,14 @@ pub fn own_bcf(cols: &[String], recs: &[Rec]) -> Vec<u8> {
                 indiv.push(0x81); // int8 END_OF_VECTOR
             }
         }
+        if r.bad {
+            // a corrupt record: the stream ends in the middle of it (after the two length fields and a few bytes)
+            out.extend_from_slice(&(shared.len() as u32).to_le_bytes());
+            out.extend_from_slice(&(indiv.len() as u32).to_le_bytes());
+            let cut = 3 + (r.pos as usize % (shared.len() - 3));
+            out.extend_from_slice(&shared[..cut]);
+            return out;
+        }
         out.extend_from_slice(&(shared.len() as u32).to_le_bytes());
         out.extend_from_slice(&(indiv.len() as u32).to_le_bytes());
         out.extend_from_slice(&shared);
